@@ -16,7 +16,7 @@ RULE = (
     "generated spellings (leading zeros, /len) through anonymize_ip_addr or FileAnonymizer.anonymize_io: mask and "
     "preserved tokens byte-identical, every other token = canonical text of a fresh anonymizer's image; collide: for "
     "y inside a preserved network N deanonymize(y) in N, for x outside N (biased to share len(N)-1..len(N)-4 bits) "
-    "anonymize(x) not in N. Non-trivial = outside address sharing >= len(N)-4 bits with N whose image differs / line "
+    "anonymize(x) not in N; bulk: the same collision oracle after one anonymizer processed 24000/60000 spread addresses. Non-trivial = outside address sharing >= len(N)-4 bits with N whose image differs / line "
     "with a perturbed mask or preserved token; distinct by case."
 )
 ASSUMPTIONS = ["mask predicate of the harness: binary form matches 1*0* or 0*1*", "tokens are separated by characters outside [A-Za-z0-9.:] (token boundaries themselves are C06's subject)"]
@@ -139,7 +139,35 @@ def check_collide(case, ev):
     return None
 
 
-REPLAY = {"masks": check_mask_pred, "masks_random": check_mask_pred, "text": check_text, "collide": check_collide}
+def check_bulk(case, ev):
+    """case: {cfg (with networks), n, start, stride, probes:[[net, y, x]]}: the collision oracle
+    after one anonymizer has processed n spread addresses (long runs / big inputs)."""
+    cfg, n = case["cfg"], case["n"]
+    an, exc = guarded(G.mk4, cfg)
+    if exc is not None:
+        return core.exc_finding(exc, case, "ctor/")
+    mult = case["stride"] | 1
+    for i in range(n):
+        _, exc = guarded(an.anonymize, (case["start"] + i * mult) & G.M32)
+        if exc is not None:
+            return core.exc_finding(exc, case, "anonymize/")
+    ev.bulk(1, 1, sample={"cfg": cfg, "n": n})
+    ev.notes["addresses_loaded"] = ev.notes.get("addresses_loaded", 0) + n
+    for net, y, x in case["probes"]:
+        img, exc = guarded(an.anonymize, x)
+        if exc is not None:
+            return core.exc_finding(exc, case, "anonymize/")
+        if G.in_net(img, net) != G.in_net(x, net):
+            return Finding("bulk/collision-with-preserved-network-after-long-run", "cfg=%r: after %d addresses %s -> %s (network %s)" % (cfg, n, G.v4_canon(x), G.v4_canon(img), net), case)
+        pre, exc = guarded(an.deanonymize, y)
+        if exc is not None:
+            return core.exc_finding(exc, case, "deanonymize/")
+        if not G.in_net(pre, net):
+            return Finding("bulk/collision-with-preserved-network-after-long-run", "cfg=%r: after %d addresses %s (outside %s) is the pre-image of preserved %s" % (cfg, n, G.v4_canon(pre), net, G.v4_canon(y)), case)
+    return None
+
+
+REPLAY = {"bulk": check_bulk, "masks": check_mask_pred, "masks_random": check_mask_pred, "text": check_text, "collide": check_collide}
 
 _SEPS = st.sampled_from([" ", "  ", " , ", "\t", " (", ") ", " - ", ";", " netmask ", " mask ", " wildcard ", "|", "=", " eq "])
 
@@ -185,6 +213,29 @@ def _collide_case(draw):
     return {"cfg": cfg, "net": net, "y": y, "x": x}
 
 
+@st.composite
+def _bulk_case(draw, n):
+    probes = []
+    cc = None
+    for _ in range(12):
+        c = draw(_collide_case())
+        if cc is None:
+            cc = c["cfg"]
+            cc["B4"] = draw(st.sampled_from([0, 0, 4]))
+        net = draw(st.sampled_from(cc["networks"]))
+        v, l = G.parse_cidr(net)
+        y = v | (draw(G.u32) & ((1 << (32 - l)) - 1))
+        x = y ^ (1 << (31 - draw(st.integers(max(0, l - 4), l - 1)))) if l else y
+        probes.append([net, y, x])
+    return {"cfg": cc, "n": n, "start": draw(G.u32), "stride": draw(st.integers(1 << 18, G.M32)), "probes": probes}
+
+
+def t_bulk(shard, nshards, seed, ev, known, n=1, size=24000):
+    # the first examples Hypothesis generates are the simplest ones (empty lists, zero values): skip them
+    cases = core.collect_cases(_bulk_case(size), n + 3, seed)[3:]
+    return core.enum_drive(cases, check_bulk, ev, known, "bulk")
+
+
 def t_masks(shard, nshards, seed, ev, known):
     ints = sorted(set(MASKS) | {m ^ (1 << b) for m in MASKS for b in range(32)})
     fs = core.enum_drive(({"n": n} for n in ints), check_mask_pred, ev, known, "masks")
@@ -212,4 +263,5 @@ def plan(tier):
         Task("masks_random", t_masks_random, shards=1 if q else 8, n=3000 if q else 100000),
         Task("text", t_text, shards=3 if q else 16, n=1000 if q else 30000),
         Task("collide", t_collide, shards=3 if q else 16, n=1700 if q else 40000),
+        Task("bulk", t_bulk, shards=3 if q else 8, n=1 if q else 4, size=24000 if q else 60000),
     ]
